@@ -16,6 +16,7 @@ Copy i uses two letters (p, q); the kinds of classes of a copy:
   variant K: as F, but X is not verified by brute force: the pack offered for C verifies X by a strategy that itself offers a
              pack (X = p A, A = eps + p A + q A): a chain of verifications with packs
   variant R: as F with bD = q q X: a product with a repeated child class (T, T, X)
+  variant N: as M, with A specified down to atoms (A = eps + p A + q A): no class verified by brute force
   variant Z: as Y, but the pack offered for C keeps its strategies in an expansion set (verification strategies first in pack order)
   variant S: C = (p|q)+ = X + swap(X): a union rule with the *same* child class twice, told apart by the child index only
 Root R = g + C1 + ... + Ck  (`g` a one-letter atom). Everything the oracle needs is generated directly from these
@@ -32,6 +33,8 @@ from comb_spec_searcher import (
     StrategyPack,
 )
 from comb_spec_searcher.strategies.constructor.base import Constructor
+from comb_spec_searcher.exception import StrategyDoesNotApply
+from comb_spec_searcher.strategies.rule import NonBijectiveRule
 from comb_spec_searcher.strategies.strategy import Strategy, VerificationStrategy
 from upword import W
 
@@ -90,7 +93,7 @@ def _words(name, n, sig):
     if kind == "C":
         if v == "P":
             return _words("Pq" + k, n, sig)
-        if v == "M":
+        if v in ("M", "N"):
             return [w[:i] + w[i].upper() + w[i + 1:] for w in _tails(p, q, n) for i in range(n)]
         if v == "Q":
             return _words("Aq" + k, n, sig) + _words("Y" + k, n, sig) + _words("gPq" + k, n, sig)
@@ -262,7 +265,26 @@ class Pointing(Constructor):
         return "pointing"
 
 
+class PointRule(NonBijectiveRule):
+    """the rule of `GPoint`: the forward map (forget the mark) is not injective; a parent object is told apart from the others
+    over the same child object by the position of its mark (the library's extension point for such rules)"""
+
+    def _forward_order(self, obj, image, data=None):
+        return next(i for i, ch in enumerate(str(obj)) if ch.isupper())
+
+    def _backward_order_item(self, idx, objs, data=None):
+        w = str(objs[0])
+        return W(w[:idx] + w[idx].upper() + w[idx + 1:])
+
+
 class GPoint(_Table, Strategy):
+    def __call__(self, comb_class, children=None):
+        if children is None:
+            children = self.decomposition_function(comb_class)
+            if children is None:
+                raise StrategyDoesNotApply("Strategy does not apply")
+        return PointRule(self, comb_class, children=children)
+
     def can_be_equivalent(self):
         return False
 
@@ -303,6 +325,8 @@ class GBrute(VerificationStrategy):
     def verified(self, c):
         if not isinstance(c, GL) or c.name[:-1] not in self.kinds:
             return False
+        if c.name[:-1] == "A" and c.sig[int(c.name[-1])] == "N":
+            return False  # in an N copy A is specified by rules
         if c.name[:-1] == "X" and c.sig[int(c.name[-1])] == "K":
             return type(self) is GPackVer2  # in a K copy X is verified only by the strategy that offers the second pack
         return type(self) is not GPackVer2
@@ -351,6 +375,12 @@ def inner_pack(sig):
             continue
         if v == "M":
             point["C" + k] = ("A" + k,)
+            continue
+        if v == "N":  # as M, with A specified down to atoms (A = eps + p A + q A) instead of verified by brute force
+            point["C" + k] = ("A" + k,)
+            union["A" + k] = ("Eps" + k, "pA" + k, "qA" + k)
+            prod["pA" + k] = ("Y" + k, "A" + k)
+            prod["qA" + k] = ("T" + k, "A" + k)
             continue
         if v == "P":
             prod["C" + k] = ("Aq" + k, "Ps" + k)
